@@ -40,6 +40,54 @@ def mk_num_case(routine, et, arrays, params="", **kw):
     return c
 
 
+def alias_pairs(shape, rng):
+    """pairs of layouts over ONE parent allocation presenting two logical arrays of `shape` that start
+    at the same element or overlap: identical views, a square block against its transpose, a stepped
+    view against a prefix, a reversed view against the forward one"""
+    from ..layouts import Layout
+    nd = len(shape)
+    ident = list(range(nd))
+    out = []
+    c = contiguous(shape)
+    out.append((c, c))
+    if nd >= 2 and len(set(shape)) == 1:
+        out.append((c, Layout(shape, [(0, s, 1) for s in shape], list(reversed(ident)))))
+    if nd >= 2:
+        # the same block inside a larger parent, second operand with two axes of equal length swapped
+        for i in range(nd):
+            for j in range(i + 1, nd):
+                if shape[i] == shape[j]:
+                    perm = ident[:]
+                    perm[i], perm[j] = j, i
+                    out.append((c, Layout(shape, [(0, s, 1) for s in shape], perm)))
+    # stepped against prefix (same first element), reversed against forward (overlapping, other start)
+    big = [2 * s for s in shape]
+    step = Layout(big, [(0, 2 * s - 1 if s else 0, 2) for s in shape], ident)
+    pref = Layout(big, [(0, s, 1) for s in shape], ident)
+    out.append((step, pref))
+    rev = Layout(shape, [(0, s, -1) for s in shape], ident)
+    out.append((c, rev))
+    k = rng.below(len(out))
+    return out[k:] + out[:k]
+
+
+def mk_alias_case(routine, et, pbuf, la, lb, params="", **kw):
+    """two operands that are views (layouts la, lb over the same parent shape) into ONE allocation
+    holding `pbuf`; the second operand's data section is `@`"""
+    assert la.pshape == lb.pshape and len(pbuf) == la.parent_len()
+    toks = enc_vals(et, pbuf)
+    va = [pbuf[c] for c in la.cells()]
+    vb = [pbuf[c] for c in lb.cells()]
+    line = "%s | %s | %d %s | %s | @ |" % (et, la.tokens(), len(toks), " ".join(toks), lb.tokens())
+    if params != "":
+        line += " " + params
+    kw.update(et=et, shapes=[la.shape(), lb.shape()], vals=[va, vb],
+              layouts=[la.describe(), "alias:" + lb.describe()], params=params)
+    c = Case(routine, " ".join(line.split()), **kw)
+    c._lays = [la, lb]
+    return c
+
+
 def parse_num(case):
     raw = case.raw
     secs = [s.split() for s in raw.split("|")]
